@@ -21,7 +21,8 @@ def run(ctx, dangling_clause=True):
     b = F.fn("Document::renumber_objects_with")
     loops = b.loops()
     rem = [c for c in b.calls if re.search(r"BTreeMap::<.*>::remove$", c.fn or "") and "self.objects" in b.oname(c.args[0], 4)]
-    ins = [c for c in b.calls if re.search(r"BTreeMap::<.*>::insert$", c.fn or "") and "self.objects" in b.oname(c.args[0], 4)]
+    # stores into self.objects: single insertions, or the whole temporary map at once (extend / append)
+    ins = [c for c in b.calls if re.search(r"BTreeMap::<.*>::(insert|append)$|BTreeMap<.*> as std::iter::Extend<.*>>::extend$|iter::Extend::extend$", c.fn or "") and "self.objects" in b.oname(c.args[0], 4)]
     ctx.floor(R, "remove calls on self.objects", len(rem), 2)
     ctx.floor(R, "insert calls on self.objects", len(ins), 2)
     for c in rem:
@@ -68,30 +69,65 @@ def run(ctx, dangling_clause=True):
         ctx.ob(R, "references-rewritten-after-move|%d" % tr.index(t), bool(after), "traverse_objects(action) runs after the objects were re-inserted", b.where(t.ln),
                what="references are rewritten before the objects were moved (or not at all)")
     acts = [c for c in F.closures_of(b.path)]
+
+    def lookup_edges(a):
+        """the closure's one lookup in the rename map, as (kind, present-edge block, absent-edge block): either
+        `contains_key(id)` followed by `map[id]`, or `get(id)` matched against Some / None."""
+        ck = [c for c in a.calls if re.search(r"BTreeMap::<.*>::contains_key$", c.fn or "")]
+        gt = [c for c in a.calls if re.search(r"BTreeMap::<.*>::get$", c.fn or "")]
+        if len(ck) == 1 and not gt:
+            sw = [bi for bi in range(a.n) if a.term(bi)["k"] == "switch" and lib.switch_on(a, bi, ck[0].dest["l"])]
+            if len(sw) == 1:
+                t = a.term(sw[0])
+                return "contains_key", t["else"], t["tg"][0][1]
+            return "contains_key", None, None
+        if len(gt) == 1 and not ck:
+            for bi in range(a.n):
+                t = a.term(bi)
+                if t["k"] != "switch":
+                    continue
+                pl = op_place(t["d"])
+                d = a.single_def(pl["l"]) if pl is not None and not pl["p"] else None
+                if d and d[2] == "rv" and d[3]["k"] == "discr" and a.root_place(d[3]["p"], through_names=True)["l"] == gt[0].dest["l"]:
+                    some = [x for v, x in t["tg"] if str(v) == "1"]
+                    none = [x for v, x in t["tg"] if str(v) == "0"]
+                    if some:
+                        return "get", some[0], (none[0] if none else t["else"])
+                    if none:
+                        return "get", t["else"], none[0]
+            return "get", None, None
+        return None, None, None
+
     rew = 0
     for a in acts:
-        idx = [c for c in a.calls if (c.fn or "").endswith("ops::Index::index") and "BTreeMap" in (c.full or "")]
-        ck = [c for c in a.calls if re.search(r"BTreeMap::<.*>::contains_key$", c.fn or "")]
-        if idx and ck:
+        kind, pres, absn = lookup_edges(a)
+        if kind == "contains_key":
+            idx = [c for c in a.calls if (c.fn or "").endswith("ops::Index::index") and "BTreeMap" in (c.full or "")]
+            ck = [c for c in a.calls if re.search(r"BTreeMap::<.*>::contains_key$", c.fn or "")]
+            if idx:
+                rew += 1
+                ok = all(a.dominates(k.bb, i.bb) for k in ck for i in idx)
+                ctx.ob(R, "rewrite-guarded-lookup|%s" % F.canon_of(a).rsplit("::", 1)[-1], ok, "replace[id] is read only under replace.contains_key(id)", a.where(),
+                       what="the reference rewrite indexes the replace map without the contains_key guard (dangling references would panic or be rewritten)")
+        elif kind == "get":
+            # `get` hands the new id out only when there is one: the write of the reference stands on the Some edge
+            wr = [bi for bi, si, st_ in a.stmts() if "lhs" in st_ and st_["lhs"]["p"] and "*" in st_["lhs"]["p"]]
             rew += 1
-            ok = all(a.dominates(k.bb, i.bb) for k in ck for i in idx)
-            ctx.ob(R, "rewrite-guarded-lookup|%s" % F.canon_of(a).rsplit("::", 1)[-1], ok, "replace[id] is read only under replace.contains_key(id)", a.where(),
-                   what="the reference rewrite indexes the replace map without the contains_key guard (dangling references would panic or be rewritten)")
+            ok = pres is not None and bool(wr) and all(x == pres or a.dominates(pres, x) for x in wr)
+            ctx.ob(R, "rewrite-guarded-lookup|%s" % F.canon_of(a).rsplit("::", 1)[-1], ok, "the reference is overwritten only with what replace.get(id) found", a.where(),
+                   what="the reference rewrite writes the reference outside the Some edge of its lookup in the replace map")
     ctx.floor(R, "reference-rewriting closures", rew, 2)
     # "a reference that resolved to nothing still resolves to nothing": a reference whose id is not a key of the rename map
     # (a dangling one) is left as it is — but the numbers handed out afresh may well include its number.  Some handling has to
     # stand on the not-in-the-map edge (or the fresh numbers have to avoid the dangling ones); nothing there = finding.
     npass = 0
     for a in (sorted(acts, key=lambda x: x.lo) if dangling_clause else []):
-        ck = [c for c in a.calls if re.search(r"BTreeMap::<.*>::contains_key$", c.fn or "")]
-        if len(ck) != 1:
+        kind, tr, fa = lookup_edges(a)
+        if kind is None:
             continue
         npass += 1
-        sw = [bi for bi in range(a.n) if a.term(bi)["k"] == "switch" and lib.switch_on(a, bi, ck[0].dest["l"])]
-        if len(sw) != 1:
+        if tr is None or fa is None:
             continue
-        t = a.term(sw[0])
-        tr, fa = t["else"], t["tg"][0][1]
         only_false = a.reach_set(fa) | {fa}
         only_false -= (a.reach_set(tr) | {tr})
         handled = any(a.term(x)["k"] == "call" or any("lhs" in st_ and st_["lhs"]["p"] for st_ in a.blocks[x]["st"]) for x in only_false)
